@@ -99,6 +99,9 @@ impl Property for StoreProp {
                 for n in 0..2 {
                     ops.push(Op::S(SOp::Import { n, write: true }));
                 }
+                if rng.chance(1, 4) {
+                    ops.push(Op::S(SOp::ViaActor));
+                }
                 for _ in 0..rng.range(3, 14 * scale) {
                     match rng.below(20) {
                         0..=10 => {
@@ -187,6 +190,9 @@ impl Property for StoreProp {
             "C17" => {
                 ops.push(Op::S(SOp::Import { n: 0, write: true }));
                 ops.push(Op::S(SOp::Import { n: 1, write: false }));
+                if rng.chance(1, 4) {
+                    ops.push(Op::S(SOp::ViaActor));
+                }
                 let npeers = rng.range(1, 9);
                 let mut t = 1000u64;
                 for _ in 0..rng.range(1, 30 * scale) {
@@ -216,6 +222,9 @@ impl Property for StoreProp {
             "C15" => {
                 ops.push(Op::S(SOp::Import { n: 0, write: true }));
                 ops.push(Op::S(SOp::Import { n: 1, write: false }));
+                if rng.chance(1, 4) {
+                    ops.push(Op::S(SOp::ViaActor));
+                }
                 for _ in 0..rng.range(3, 14 * scale) {
                     match rng.below(12) {
                         0..=2 => ops.push(Op::S(SOp::SetPolicy { n: rng.below(3), pol: gen_pol(rng) })),
